@@ -9,7 +9,7 @@ CONSTANTS
   WaitLeader = TRUE
   QueueSize = 10
   SpecialCids = {}
-  Journal = FALSE
+  Journal = TRUE
   DumpFile = FALSE
   VersionedCids = {}
   QuietCids = {}
@@ -30,11 +30,11 @@ CONSTANTS
   Advs0 = {"z","j"}
   SnapSize = 100
   Compactors = {}
-  FaultPairs = {{"a","b"},{"a","c"},{"b","c"},{"a","d"},{"b","d"},{"c","d"},{"a","e"},{"b","e"},{"c","e"},{"d","e"}}
+  FaultPairs = {}
   Isolated0 = {}
   MembCids = {}
   MembTargets = {}
-  CrashNodes = {}
+  CrashNodes = {"b"}
   Spares = {}
   MaxDepth = 100
 CONSTRAINT Bound
@@ -49,6 +49,7 @@ INVARIANT OneVotePerTerm
 INVARIANT CommittedStable
 INVARIANT LogMatching
 INVARIANT NoEscape
+INVARIANT NoOlderTerm
 PROPERTY P_MonotoneIndices
 PROPERTY P_HistAppendOnly
 PROPERTY P_CommitIsQuorumBacked
